@@ -451,6 +451,30 @@ def plan_ops(doc: dict, man: dict, args: dict) -> list:
             if client["auth"] and rng.random() < 0.3:
                 client["prefix"] = rng.choice(["Token", "", "Basic"])
                 client["auth_header_name"] = rng.choice(["Authorization", "X-Api-Key"])
+            # client surface: the same call through a client derived with with_headers / with_cookies / with_timeout, built before or
+            # after the underlying httpx client exists, used as a context manager (own random stream: the other draws stay as they were)
+            r2 = random.Random(f"client-surface:{args.get('seed')}:{mod}:{ci}")
+            if r2.random() < 0.35:
+                taken = {n.lower() for n in wire["header"]} | {u["name"].lower() for u in unset["header"]} | {"authorization", "x-api-key", "content-type", "cookie"}
+                derive = []
+                if r2.random() < 0.3:
+                    derive.append(["touch", None])
+                for _ in range(r2.randint(1, 3)):
+                    k = r2.choice(["with_headers", "with_cookies", "with_timeout"])
+                    if k == "with_headers":
+                        hn = f"X-Client-{tok.next()}"
+                        if hn.lower() not in taken:
+                            derive.append([k, {hn: f"hv-{tok.next()}"}])
+                    elif k == "with_cookies":
+                        cn = f"ck{tok.next()}"
+                        if cn not in wire["cookie"] and all(u["name"] != cn for u in unset["cookie"]):
+                            derive.append([k, {cn: f"cv-{tok.next()}"}])
+                    else:
+                        derive.append([k, 7.5])
+                client["derive"] = derive
+                client["context"] = r2.random() < 0.4
+                client["extra_headers"] = {k_: v_ for st in derive if st[0] == "with_headers" for k_, v_ in st[1].items()}
+                client["extra_cookies"] = {k_: v_ for st in derive if st[0] == "with_cookies" for k_, v_ in st[1].items()}
             x["client"] = client
             acts.append({"a": "call", "module": mod, "variants": variants_all if ci == 0 else rng.sample(variants_all, 2), "args": kwargs, "client": client, "response": resp, "x": x})
     return acts
